@@ -1680,6 +1680,12 @@ bool SimpleCondition::isTrue() {
     }
     m_isTrue = isTrue;
     m_lastCheckTime = m_message->getLastChangeTime();
+    time_t now;
+    time(&now);
+    if (now <= m_lastCheckTime) {
+      // checked within the second of the change: a further change in that second carries the same time, so check again next time
+      m_lastCheckTime--;
+    }
   }
   return m_isTrue;
 }
